@@ -747,6 +747,48 @@ def r_linefeed(prog, R):
     r.require(n >= 2, "fewer than 2 white-space skips in line-oriented parsers found")
 
 
+def r_initorder(prog, R):
+    r = R.rule("R-C15-INITORDER", "what a configuration source needs from the channel is in place before that source runs: the socket function table (interface name "
+               "lookup for link-local servers) is installed before the system configuration is read", floor=1,
+               analysis="call-graph reachability (reader of sock_funcs under the configuration source) + must-precede in ares_init_options")
+    f = prog.func("ares_init_options")
+    src = f.calls_to("ares_init_by_sysconfig")
+    if not r.require(bool(src), "ares_init_options: ares_init_by_sysconfig call not found"):
+        return
+    # premise: something under ares_init_by_sysconfig reads channel->sock_funcs
+    root = prog.func("ares_init_by_sysconfig")
+    seen, work, reader = set(), [root], None
+    while work and reader is None:
+        g = work.pop()
+        if g.key in seen:
+            continue
+        seen.add(g.key)
+        for b, i, el in g.elements():
+            for nd in walk(el.get("e")) if el.get("e") is not None else []:
+                if nd.get("k") == "mem" and nd["f"].startswith("aif_") and "sock_funcs" in render(nd):
+                    reader = g
+        for b, i, c in g.calls():
+            t = prog.resolve(g, c)
+            if t is not None and t.file.startswith("src/lib/"):
+                work.append(t)
+            for a in c.get("args", []):          # callbacks handed down (line handlers)
+                a2 = strip(a)
+                if a2 is not None and a2.get("k") == "fn":
+                    for t2 in prog.by_name.get(a2["n"], []):
+                        if t2.file.startswith("src/lib/"):
+                            work.append(t2)
+    r.info["sock_funcs_reader_under_sysconfig"] = reader.name if reader else None
+    if not r.require(reader is not None, "no reader of channel->sock_funcs.aif_* found under ares_init_by_sysconfig (premise of the rule vanished)"):
+        return
+    mf = MustFacts(f, track_calls=True)
+    b, i, c = src[0]
+    k = "socket functions installed before the system configuration is read"
+    if any(mf.passed_call(b, i, nm) for nm in ("ares_set_socket_functions_def", "ares_set_socket_functions_ex")):
+        r.ok(k, f.loc(c["ln"]))
+    else:
+        r.viol(k, f.name, f.loc(c["ln"]), "ares_init_by_sysconfig() runs before ares_set_socket_functions_def(): %s() reads channel->sock_funcs.aif_* to validate the interface of a link-local server, finds NULL and drops the server -- a valid 'nameserver fe80::1%%eth0' line has no effect at first init" % reader.name)
+
+
 def run(prog, R, tier):
     R.assume("callees are given valid (non-NULL) pointers by the configuration parsers (defensive NULL-argument returns are not part of the return sets)")
     ownrules.own_rule(prog, R, "R-C15-OWN", FILES, floor=30)
@@ -760,5 +802,6 @@ def run(prog, R, tier):
     r_num(prog, R)
     r_lineloop(prog, R)
     r_linefeed(prog, R)
+    r_initorder(prog, R)
     ownrules.realloc_rule(prog, R, "R-C15-REALLOC")
     outinit.outinit_rule(prog, R, "R-C15-OUTINIT", floor=10)
